@@ -296,6 +296,11 @@ def threading_event(I, args, kwargs):
     return fresh_abstract(I, "threading.Event", isset=False)
 
 
+def threading_semaphore(I, args, kwargs):
+    """threading.Semaphore(n) / BoundedSemaphore(n) / Lock(): a blocking primitive - acquire() may block the calling thread"""
+    return fresh_abstract(I, "threading.Semaphore")
+
+
 def asyncio_event(I, args, kwargs):
     return fresh_abstract(I, "asyncio.Event", isset=False)
 
@@ -388,9 +393,11 @@ def asyncio_current_task(I, args, kwargs):
 
 
 def install(E):
+    E.external_result_types.update({"threading.Semaphore": "threading.Semaphore", "threading.BoundedSemaphore": "threading.Semaphore", "threading.Event": "threading.Event"})
     E.externals.update({"trio.lowlevel.current_trio_token": trio_current_token, "trio.open_memory_channel": trio_open_memory_channel,
                         "trio.open_nursery": trio_open_nursery, "trio.run": trio_run, "asyncio.sleep": asyncio_sleep,
                         "threading.Event": threading_event, "asyncio.Event": asyncio_event, "asyncio.get_event_loop": asyncio_get_event_loop,
                         "threading.Thread": threading_thread, "asyncio.run_coroutine_threadsafe": run_coroutine_threadsafe, "trio.from_thread.run": trio_from_thread_run,
                         "asyncio.current_task": asyncio_current_task, "trio.sleep": trio_sleep, "str.__mod__": str_mod, "logging.getLogger": get_logger,
+                        "threading.Semaphore": threading_semaphore, "threading.BoundedSemaphore": threading_semaphore,
                         "asyncio.run": asyncio_run, "asyncio.shield": asyncio_shield, "asyncio.gather": asyncio_gather})
